@@ -60,25 +60,7 @@ func runC07(c *engine.Ctx, tier string) {
 		Sel:     engine.Sel{Field: fAppliedIdx, RHS: "@OWN", Filter: afterSet},
 		Require: "#called(" + sbSet + ")",
 		Why:     "in the apply step the applied cursor moves only after the device was asked"})
-	// write order inside the configuration store: the value maps are persisted before the versioned
-	// record whose cursor claims them
-	sp, serr := storePaths(c, pkgStoreCfgV2)
-	if serr == nil {
-		saved := c.Al
-		c.Al = engine.NewAliases(c.P, "C", "$Configuration")
-		storeFn := "store/v2/configuration.configurationStore.store"
-		for _, x := range []struct{ id, root, vals string }{
-			{"C07.2e", "configurationStore.Update", "@C.Values"},
-			{"C07.2f", "configurationStore.UpdateStatus", "@C.Status.Applied.Values"},
-		} {
-			root := x.root
-			c.Guard(engine.Guard{ID: x.id, Pkg: pkgStoreCfgV2, Min: 1, PathsOverride: sp,
-				Sel:     engine.Sel{Call: "map.Map.Update", Filter: func(p *engine.Path, i int) bool { return strings.HasSuffix(p.Root.Name(), root) }},
-				Require: x.vals + " == nil || #ok(" + storeFn + ")",
-				Why:     "the commit/apply step is re-entrant only because the cursor in the record is written after the values it stands for: a crash between the two writes must leave the cursor behind, never ahead"})
-		}
-		c.Al = saved
-	}
+	storeWriteOrder(c, "C07.2e", "C07.2f")
 	// (3) one status write per pass
 	muts := engine.Sel{CallAny: v2Mutators}
 	for _, x := range []struct{ id, pkg, after string }{
@@ -195,4 +177,30 @@ func replay(c *engine.Ctx, id string, pkgs []string, min int) {
 		}
 	}
 	o.Done(min)
+}
+
+// storeWriteOrder: inside the configuration store the value maps are persisted before the versioned
+// record whose cursor claims them (shared by C07 and C01).
+func storeWriteOrder(c *engine.Ctx, idUpdate, idStatus string) {
+	sp, serr := storePaths(c, pkgStoreCfgV2)
+	if serr != nil {
+		o := c.Custom(idUpdate, "load", "paths of the configuration store", "")
+		o.Undecided(pkgStoreCfgV2, serr.Error())
+		o.Done(0)
+		return
+	}
+	saved := c.Al
+	c.Al = engine.NewAliases(c.P, "C", "$Configuration")
+	storeFn := "store/v2/configuration.configurationStore.store"
+	for _, x := range []struct{ id, root, vals string }{
+		{idUpdate, "configurationStore.Update", "@C.Values"},
+		{idStatus, "configurationStore.UpdateStatus", "@C.Status.Applied.Values"},
+	} {
+		root := x.root
+		c.Guard(engine.Guard{ID: x.id, Pkg: pkgStoreCfgV2, Min: 1, PathsOverride: sp,
+			Sel:     engine.Sel{Call: "map.Map.Update", Filter: func(p *engine.Path, i int) bool { return strings.HasSuffix(p.Root.Name(), root) }},
+			Require: x.vals + " == nil || #ok(" + storeFn + ")",
+			Why:     "the commit/apply step is re-entrant only because the cursor in the record is written after the values it stands for: a crash between the two writes must leave the cursor behind, never ahead"})
+	}
+	c.Al = saved
 }
